@@ -7,6 +7,7 @@ import (
 	"unicode/utf8"
 
 	"github.com/welllog/golib/strz"
+	"github.com/welllog/golib/typez"
 )
 
 // C07: the backslash escape codecs of strz/enc.go.
@@ -24,6 +25,12 @@ func c07Exact(b []byte) []byte {
 }
 
 func c07Format(k int, variant int64, b []byte) []byte {
+	if len(b)%2 == 1 { // every second input: the defined types
+		if variant&1 == 0 {
+			return c07FormatG(k, variant&2 != 0, c07Str(b))
+		}
+		return c07FormatG(k, variant&2 != 0, c07Bytes(c07Exact(b)))
+	}
 	s := string(b)
 	switch k {
 	case 0:
@@ -73,7 +80,61 @@ func c07Format(k int, variant int64, b []byte) []byte {
 	}
 }
 
+// defined types over string / []byte: typez.StrOrBytes is ~string | ~[]byte, so json.RawMessage, template.HTML or a
+// caller's own `type Line string` are legal type arguments and must behave like the underlying type
+type c07Str string
+type c07Bytes []byte
+
+func c07FormatG[T typez.StrOrBytes](k int, toString bool, s T) []byte {
+	if toString {
+		switch k {
+		case 0:
+			return []byte(strz.OctalFormatToString(s))
+		case 1:
+			return []byte(strz.HexFormatToString(s))
+		case 2:
+			return []byte(strz.UnicodeFormatToString(s))
+		default:
+			return []byte(strz.Utf16FormatToString(s))
+		}
+	}
+	switch k {
+	case 0:
+		return strz.OctalFormat(s)
+	case 1:
+		return strz.HexFormat(s)
+	case 2:
+		return strz.UnicodeFormat(s)
+	default:
+		return strz.Utf16Format(s)
+	}
+}
+
+func c07ParseToStringG[T typez.StrOrBytes](k int, s T) string {
+	switch k {
+	case 0:
+		return strz.OctalParseToString(s)
+	case 1:
+		return strz.HexParseToString(s)
+	case 2:
+		return strz.UnicodeParseToString(s)
+	default:
+		return strz.Utf16ParseToString(s)
+	}
+}
+
 func c07Parse(k int, variant int64, dl int, b []byte) []byte {
+	if len(b)%2 == 1 && variant == 1 { // every second input: a defined string type
+		return []byte(c07ParseToStringG(k, c07Str(b)))
+	}
+	if len(b)%2 == 1 && variant == 2 { // a defined byte-slice type, overwritten before the result is read
+		src := c07Bytes(c07Exact(b))
+		res := c07ParseToStringG(k, src)
+		for i := range src {
+			src[i] = '#'
+		}
+		return []byte(res)
+	}
 	switch variant {
 	case 0:
 		dst := make([]byte, dl)[:dl:dl]
@@ -589,5 +650,5 @@ func c07Shrink(in []int64) [][]int64 {
 
 func init() {
 	Register(&Prop{ID: "C07", Pure: true, Num: 7, SpecMode: "equal", Gen: c07Gen, Impl: c07Impl, Shrink: c07Shrink, Describe: c07Describe,
-		Rule: "parsers: (a) exhaustive: every sequence of <= 5 (thorough: 7) symbols over two 6-symbol alphabets per codec (characters; tokens building complete / truncated / out-of-range / adjacent escapes); (b) every byte value as an escape in both cases; every sequence of <= 3 escapes over the code units D7FF D800 DBFF DC00 DFFF E000 (bare, text-separated, backslash-separated) for Utf16Parse and UnicodeParse; (c) random concatenations of pieces {well-formed escape with random digit case, truncated escape, escape with one bad digit incl. the characters at the edges of the digit classes, boundary and out-of-range values (\\777, \\400, \\U00110000, \\UFFFFFFFF, \\U0000D800), lone / reversed / unpaired / doubled surrogates, a high surrogate followed by text, a backslash, a damaged or a BMP escape (directly, behind text, behind a backslash), adjacent escapes, bare backslashes and prefixes, text, raw UTF-8, raw bytes >= 0x80}, each fifth input also cut at every distance 1..W+2 from its end; entry points Parse(dst,src) (len(dst) = len(src), longer, or shorter), ParseToString(string), ParseToString([]byte), all slices with cap = len. Format and Parse∘Format: random bytes, valid UTF-8 of all four widths incl. the boundary scalars, damaged UTF-8 (surrogate encodings, overlongs, > U+10FFFF, truncated sequences), escape-looking text; all four entry points. Output compared byte for byte with the model (sub 0) and with the list-level specification (sub 1). distinct = distinct (op, variant, len(dst), argument); non-trivial = parser input of at least one escape width containing a backslash; Format / round-trip argument of at least 2 bytes"})
+		Rule: "parsers: (a) exhaustive: every sequence of <= 5 (thorough: 7) symbols over two 6-symbol alphabets per codec (characters; tokens building complete / truncated / out-of-range / adjacent escapes); (b) every byte value as an escape in both cases; every sequence of <= 3 escapes over the code units D7FF D800 DBFF DC00 DFFF E000 (bare, text-separated, backslash-separated) for Utf16Parse and UnicodeParse; (c) random concatenations of pieces {well-formed escape with random digit case, truncated escape, escape with one bad digit incl. the characters at the edges of the digit classes, boundary and out-of-range values (\\777, \\400, \\U00110000, \\UFFFFFFFF, \\U0000D800), lone / reversed / unpaired / doubled surrogates, a high surrogate followed by text, a backslash, a damaged or a BMP escape (directly, behind text, behind a backslash), adjacent escapes, bare backslashes and prefixes, text, raw UTF-8, raw bytes >= 0x80}, each fifth input also cut at every distance 1..W+2 from its end; entry points Parse(dst,src) (len(dst) = len(src), longer, or shorter), ParseToString(string), ParseToString([]byte), all slices with cap = len; inputs of odd length go through defined types (type c07Str string, type c07Bytes []byte) in every generic entry point. Format and Parse∘Format: random bytes, valid UTF-8 of all four widths incl. the boundary scalars, damaged UTF-8 (surrogate encodings, overlongs, > U+10FFFF, truncated sequences), escape-looking text; all four entry points. Output compared byte for byte with the model (sub 0) and with the list-level specification (sub 1). distinct = distinct (op, variant, len(dst), argument); non-trivial = parser input of at least one escape width containing a backslash; Format / round-trip argument of at least 2 bytes"})
 }
